@@ -87,8 +87,8 @@ Lemma on_frame_sinv e W out f e' o sdus :
   sinvE e W out -> on_frame e f = (e', o, sdus) -> sinvE e' W (out ++ o).
 Proof.
   intros [done I] H.
-  destruct f as [tx req s l data | func poll final req]; cbn [on_frame] in H.
-  - destruct (update_ack e req true) as [e1 o1] eqn:Hu.
+  destruct f as [tx req s l data ifin | func poll final req]; cbn [on_frame] in H.
+  - destruct (update_ack e req ifin) as [e1 o1] eqn:Hu.
     destruct (update_ack_sinv _ _ _ _ _ _ _ _ I Hu) as [d1 I1].
     destruct (negb (tx =? e_req e1)); [injection H as <- <- <-; now exists d1|].
     match type of H with (if ?c then _ else _) = _ => destruct c end.
